@@ -357,3 +357,20 @@ Proof.
   intros H H' E. pose proof (decode_encode ts p H) as D. rewrite E, (decode_encode ts' p' H') in D.
   inversion D; auto.
 Qed.
+
+(* C01 companions: what "matches" means for a private update *)
+Lemma private_needs_claim m sub al ts :
+  match_topics_with m sub al ts true = true ->
+  exists t s, In t ts /\ In s al /\ m t s = true.
+Proof.
+  rewrite match_topics_with_spec. unfold match_topics_spec. cbn [negb orb].
+  rewrite andb_true_iff. intros [_ H]. apply existsb_exists in H. destruct H as (t & Ht & H).
+  apply existsb_exists in H. destruct H as (s & Hs & H). eauto.
+Qed.
+
+Lemma anonymous_never_private m sub ts : match_topics_with m sub [] ts true = false.
+Proof.
+  rewrite match_topics_with_spec. unfold match_topics_spec. cbn [negb orb].
+  replace (existsb (fun t => existsb (m t) []) ts) with false; [apply andb_false_r|].
+  induction ts as [|t ts IH]; cbn; [reflexivity|assumption].
+Qed.
